@@ -142,6 +142,12 @@ def rule_run(chk, r):
                                                      for x in exits_)
         chk.ob('c', r.ref, 'the final drain is followed by fade-out ticks before run() lets go of the loop thread (also on the exit-code path)', okf, loc(r, dn.ast),
                discr='fade-out-after-drain')
+        # the fade-out serves the steps of generator handlers that are still suspended when the queue has drained (a `stopped` handler doing `yield self.call(…)`):
+        # a constant number of iterations is enough only for chains of that length; what the later steps fire stays queued when run() returns
+        bounded = [n for n in fades if not any(m.kind == 'test' and '_tasks' in src(m.ast) and (Q.reaches(n, m, exc=()) or ('loop', getattr(m.ast, '_parent', None)) in n.ctx)
+                                               for m in g.nodes)]
+        chk.ob('c', r.ref, 'the fade-out goes on while handlers suspended by stopping still make progress (it is not a fixed number of iterations)', not bounded,
+               loc(r, (bounded or fades or [dn])[0].ast), detail=f'{len(bounded)} fade-out loop(s) of constant length', discr='fade-out-covers-suspended-handlers')
         # … and it goes on across an exit request raised by a handler it dispatches: a SystemExit during the drain must not leave events (and `stopped`) behind
         drain_ticks = [n for n in g.nodes if _ticks(n) and any(k == 'finally' for k, _a in n.ctx)]
         # (the outermost try of run() does not count: its handlers are left once the finally clause runs)
@@ -182,6 +188,17 @@ def rule_stop(chk, s):
            p1 is None and bool(clr) and not between, loc(s, f.ast), path=pat.path_lines(p1, f) if p1 else None, discr='flag-cleared-first')
     chk.ob('d', s.ref, 'stopped is queued before the running flag is cleared (run() cannot fade out and return between the two steps of a stop() from another thread)',
            not early and bool(clr), loc(s, (early or clr or [f])[0].ast), discr='stopped-queued-before-flag')
+    # two overlapping stop() calls (two threads; a thread and a handler; a thread and the atexit hook of run()) must not both find the manager running: the test,
+    # the queueing of `stopped` and the clearing of the flag are one critical section
+    def lock_of(n):
+        ws = [a for k, a in n.ctx if k == 'with' and 'self._lock' in src(getattr(a, 'context_expr', a) if not isinstance(a, ast.With) else a.items[0].context_expr)]
+        return ws[-1] if ws else None
+    tests_run = [n for n in g.nodes if n.kind == 'test' and src(n.ast) in ('self.running', 'self._running', 'not self.running', 'not self._running')
+                 and any(Q.reaches(n, c_) for c_ in clr)]
+    section = {id(lock_of(n)) for n in tests_run[:1] + [f] + clr}
+    chk.ob('d', s.ref, 'stop() decides under the lock whether it is the one that stops: the test of the running flag, the queueing of `stopped` and the clearing of the flag '
+                       'lie in one `with self._lock` block (else two overlapping calls both announce the stop)', bool(tests_run) and len(section) == 1 and None not in
+           [lock_of(n) for n in tests_run[:1] + [f] + clr], loc(s, f.ast), discr='stop-decided-once')
     # … and a loop that went idle while the flag was still set is woken up
     wakes = [n for n in g.nodes if n.kind == 'stmt' and any(len(c.args) == 1 and pat.is_const(c.args[0], 0) for _r, c in pat.method_calls(n.ast, 'reduce_time_left'))]
     okw = bool(wakes) and all(any(k == 'with' and 'self._lock' in src(getattr(a, 'context_expr', a)) for k, a in n.ctx) for n in wakes) and \
